@@ -244,6 +244,21 @@ def run(ck):
                     if numpy.abs(dx - c * c * data).max() > 1e-9 * c * c * numpy.abs(data).max():
                         ck.fail("dipole-scaling:factor-%g" % c, "spectrum does not scale with the square of a common dipole factor (%g)" % c,
                                 dict(inp, factor=c), float(numpy.abs(dx - c * c * data).max() / (c * c * numpy.abs(data).max())))
+            # prior use of the system: the aggregate diagonalised itself (as the 2D and mock calculators make it do) before the
+            # absorption spectrum is calculated from it; and two spectra in a row from one aggregate
+            if nmol >= 2:
+                s7 = make(nmol, energies, dips, poss, couplings, reorgs, cortimes)
+                d_op0 = numpy.array(s7.get_TransitionDipoleMoment().data).copy()
+                s7.diagonalize()
+                _, sp7 = spectrum(s7)
+                _, sp7b = spectrum(s7)
+                for nm7, sp_ in (("after Aggregate.diagonalize()", sp7), ("second calculation on the same aggregate", sp7b)):
+                    if numpy.abs(numpy.array(sp_.data) - data).max() > 1e-9 * numpy.abs(data).max():
+                        ck.fail("prior-use:spectrum", "spectrum of the same system differs %s" % nm7, dict(inp, history=nm7),
+                                float(numpy.abs(numpy.array(sp_.data) - data).max() / numpy.abs(data).max()))
+                if numpy.abs(numpy.array(s7.get_TransitionDipoleMoment().data) - d_op0).max() > 1e-12:
+                    ck.fail("unchanged:dipole-operator:after-diagonalize", "the system's dipole operator changed (diagonalize + two spectrum calculations)", inp,
+                            float(numpy.abs(numpy.array(s7.get_TransitionDipoleMoment().data) - d_op0).max()))
             Q = rot()
             _, sp3 = spectrum(make(nmol, energies, dips, poss, couplings, reorgs, cortimes, Q=Q))
             if numpy.abs(numpy.array(sp3.data) - data).max() > 1e-9 * numpy.abs(data).max():
